@@ -2,6 +2,7 @@ package props
 
 import (
 	"go/ast"
+	"go/constant"
 	"go/token"
 	"go/types"
 	"strings"
@@ -116,6 +117,70 @@ func runC16(c *core.Ctx) {
 			if strings.HasSuffix(cs.Key, ".inheritRotate") {
 				hoisted = append(hoisted, "Rotate")
 			}
+		}
+		// the same list as a table of rules: {key: "MediaBox", apply: inheritKey}, ...
+		tableAA := "" // "guarded", "unguarded" or "" (no table)
+		if len(hoisted) == 0 {
+			ast.Inspect(fn.Decl.Body, func(n ast.Node) bool {
+				id, ok := n.(*ast.Ident)
+				if !ok {
+					return true
+				}
+				tv, ok := info.Uses[id].(*types.Var)
+				if !ok || tv.Pkg() == nil || tv.Parent() != tv.Pkg().Scope() {
+					return true
+				}
+				_, init, ipkg := c.Prog.Var(pk, tv.Name())
+				cl, isCL := ast.Unparen(init).(*ast.CompositeLit)
+				if init == nil || !isCL {
+					return true
+				}
+				for _, el := range cl.Elts {
+					if kv, isKV := el.(*ast.KeyValueExpr); isKV {
+						el = kv.Value
+					}
+					ecl, isE := ast.Unparen(el).(*ast.CompositeLit)
+					if !isE {
+						continue
+					}
+					key, fun, flagged := "", "", false
+					for _, fe := range ecl.Elts {
+						val := fe
+						if kv, isKV := fe.(*ast.KeyValueExpr); isKV {
+							val = kv.Value
+						}
+						if sv, isS := core.StringConst(ipkg.TypesInfo, val); isS {
+							key = sv
+						}
+						if fid, isID := ast.Unparen(val).(*ast.Ident); isID {
+							if f, isF := ipkg.TypesInfo.Uses[fid].(*types.Func); isF {
+								fun = f.Name()
+							}
+						}
+						if cv := core.ConstOf(ipkg.TypesInfo, val); cv != nil && cv.Kind() == constant.Bool && constant.BoolVal(cv) {
+							flagged = true
+						}
+					}
+					if key != "" && (fun == "inheritKey" || fun == "inheritRotate") {
+						hoisted = append(hoisted, key)
+						o.At(fn.Site(ecl, "hoists "+key+" (table)"))
+						if key == "AA" {
+							if flagged && strings.Contains(c.Prog.Src(fn.Decl.Body), "pdf.V1_3") {
+								tableAA = "guarded"
+							} else {
+								tableAA = "unguarded"
+							}
+						}
+					}
+				}
+				return true
+			})
+		}
+		if !o.Shape(len(hoisted) > 0, "the list of hoisted attributes was not found (neither calls of inheritKey with constant keys nor a table of rules)") {
+			return
+		}
+		if tableAA == "unguarded" {
+			o.Fail("/AA is in the table of hoisted attributes without the flag that restricts it to versions before PDF 1.3")
 		}
 		readNew := stringSliceVar(c, pk, "inheritableNew")
 		readOld := stringSliceVar(c, pk, "inheritableOld")
